@@ -1,11 +1,17 @@
+import Litep2pVerif.Generated.Consts
 /-!
 Notification data path (src/protocol/notification/connection.rs, handle.rs): the bounded sync/async queues
 of a `NotificationSink`, the `Connection` task's poll loop, the substreams as FIFO byte pipes, the shared
 inbound channel with the slot reserved before reading, the handle's `peers` filter and the clogged flag.
 
 Which of the two non-empty queues the task takes next (`tokio::select!` without `biased`) is not fixed:
-the model only moves whole queues into per-mode FIFO buffers (`sBuf`, `aBuf`) and lets the reader take
-either head, so every interleaving is covered.
+`taskPoll` takes the choices as an argument (`picks`, consumed only when both queues are non-empty), the
+notifications handed to the substream are kept in per-mode FIFO buffers (`sBuf`, `aBuf`) and the reader
+may take either head, so every interleaving is covered.
+
+Back-pressure (src/substream/mod.rs, `Sink::poll_ready`): once `pending_out_bytes >= BACKPRESSURE_BOUNDARY`
+the substream accepts a further notification only after a complete flush; until then the task keeps the
+ONE notification it has already taken from a queue in `next_notification` (`parked`) and takes no other.
 -/
 namespace Litep2pVerif.Chan
 
@@ -25,7 +31,8 @@ structure Cfg where
   notifCap : Nat
   pipeCap : Nat
   maxSize : Nat
-  deriving Repr
+  boundary : Nat := Consts.BACKPRESSURE_BOUNDARY   -- `BACKPRESSURE_BOUNDARY` of the substream's sink
+  deriving DecidableEq, Repr
 
 inductive SendRes | ok | clogged | noconn | nopeer | waiting
   deriving DecidableEq, Repr
@@ -40,7 +47,8 @@ structure Chan where
   waiting : List Msg := []        -- async sends waiting for capacity (FIFO semaphore)
   sBuf : List Msg := []           -- taken by the task, not yet read completely by the remote
   aBuf : List Msg := []
-  sinkBytes : Nat := 0            -- in the substream's write buffer
+  parked : Option (Bool × Msg) := none   -- `next_notification` (taken from the sync queue?, notification)
+  sinkBytes : Nat := 0            -- in the substream's write buffer (`pending_out_bytes`)
   pipeFill : Nat := 0             -- in the pipe
   carry : Nat := 0                -- bytes of a partially read frame at the remote
   inQ : List Msg := []            -- written by the remote, not yet read by the task
@@ -55,7 +63,7 @@ structure Chan where
   delA : List Msg := []
   inRead : List Msg := []         -- moved from the inbound substream into the shared channel
   userGot : List Msg := []        -- yielded to the user
-  deriving Repr
+  deriving DecidableEq, Repr
 
 /-- `send_sync_notification`: one non-blocking step. Second component: a `ForceClose` command was sent. -/
 def syncSend (c : Chan) (m : Msg) : Chan × SendRes × Bool :=
@@ -84,10 +92,11 @@ def letIn (c : Chan) : Nat → Chan × List Msg
         (c', m :: done)
       else (c, [])
 
-/-- `close_connection`: the queues' receivers are dropped; `notify` = the protocol gets a notice. -/
+/-- `close_connection`: the task (queue receivers, parked notification) is dropped; `notify` = the protocol gets a notice. -/
 def closeTask (c : Chan) : Chan :=
-  { c with alive := false, syncQ := [], asyncQ := [], evQ := c.evQ ++ ["closed"] }
+  { c with alive := false, syncQ := [], asyncQ := [], parked := none, evQ := c.evQ ++ ["closed"] }
 
+/-- `Sink::poll_flush`: write as much of the pending bytes as the pipe takes; complete iff nothing is left. -/
 def flush (c : Chan) : Chan :=
   let mv := min c.sinkBytes (c.cfg.pipeCap - c.pipeFill)
   { c with sinkBytes := c.sinkBytes - mv, pipeFill := c.pipeFill + mv }
@@ -104,22 +113,56 @@ def readInbound (c : Chan) : Nat → Chan × Bool
         if max m.size 3 > c.cfg.maxSize then ({ c with inQ := rest }, true)
         else readInbound { c with inQ := rest, notifQ := c.notifQ ++ [m], inRead := c.inRead ++ [m] } fuel
 
-/-- One poll of the connection task. Result: `some notify` if the task ended. -/
-def taskPoll (c : Chan) : Chan × Option Bool :=
+/-- The notification the outbound loop handles next: the parked one, else the head of a non-empty queue —
+if both are non-empty the next element of `picks` decides (`0` = sync; no element left = sync). -/
+def nextNotif (c : Chan) (picks : List Nat) : Option ((Bool × Msg) × Chan × List Nat) :=
+  match c.parked with
+  | some p => some (p, { c with parked := none }, picks)
+  | none =>
+    match c.syncQ, c.asyncQ with
+    | [], [] => none
+    | m :: r, [] => some ((true, m), { c with syncQ := r }, picks)
+    | [], m :: r => some ((false, m), { c with asyncQ := r }, picks)
+    | ms :: rs, ma :: ra =>
+      if picks.headD 0 = 0 then some ((true, ms), { c with syncQ := rs }, picks.tail)
+      else some ((false, ma), { c with asyncQ := ra }, picks.tail)
+
+/-- `Sink::poll_ready`: below the boundary the substream is ready at once; at or above it only after a
+complete flush. -/
+def pollReady (c : Chan) : Chan × Bool :=
+  if c.sinkBytes ≥ c.cfg.boundary then ((flush c), (flush c).sinkBytes = 0) else (c, true)
+
+/-- `start_send` of an admissible notification: it joins the bytes pending in the substream. -/
+def pushOut (c : Chan) (p : Bool × Msg) : Chan :=
+  if p.1 then { c with sBuf := c.sBuf ++ [p.2], sinkBytes := c.sinkBytes + p.2.bytes }
+  else { c with aBuf := c.aBuf ++ [p.2], sinkBytes := c.sinkBytes + p.2.bytes }
+
+/-- The outbound loop of `poll_next`. Result flag: the connection closed (`start_send` refused an
+oversized notification; whatever this poll handed to the substream before is never flushed). -/
+def outLoop (c : Chan) (picks : List Nat) : Nat → Chan × Bool
+  | 0 => (c, false)
+  | fuel + 1 =>
+    match nextNotif c picks with
+    | none => (c, false)
+    | some (p, c1, picks1) =>
+      if (pollReady c1).2 then
+        if max p.2.size 3 > c.cfg.maxSize then (closeTask (pollReady c1).1, true)
+        else outLoop (pushOut (pollReady c1).1 p) picks1 fuel
+      else ({ (pollReady c1).1 with parked := some p }, false)
+
+/-- The rest of `poll_next` after the outbound loop: flush (a pending flush does not stop the poll), then the
+inbound half. -/
+def afterOut (c : Chan) : Chan × Option Bool :=
+  if (readInbound (flush c) 4096).2 then (closeTask (readInbound (flush c) 4096).1, some true)
+  else ((readInbound (flush c) 4096).1, none)
+
+/-- One poll of the connection task; `picks` = the choices of `select!`. Result: `some notify` if the task ended. -/
+def taskPoll (c : Chan) (picks : List Nat) : Chan × Option Bool :=
   if !c.alive then (c, none)
   else if c.signalled then (closeTask c, some false)
-  else
-    let batch := c.syncQ ++ c.asyncQ
-    if batch.any (fun m => max m.size 3 > c.cfg.maxSize) then
-      -- `start_send` rejects the oversized notification: the connection closes, nothing of this batch is flushed
-      (closeTask c, some true)
-    else
-      let c := { c with sBuf := c.sBuf ++ c.syncQ, aBuf := c.aBuf ++ c.asyncQ,
-                        sinkBytes := c.sinkBytes + (batch.map Msg.bytes).foldl (· + ·) 0,
-                        syncQ := [], asyncQ := [] }
-      let c := flush c
-      let (c, close) := readInbound c 4096
-      if close then (closeTask c, some true) else (c, none)
+  else if (outLoop c picks (c.syncQ.length + c.asyncQ.length + 1)).2 then
+    ((outLoop c picks (c.syncQ.length + c.asyncQ.length + 1)).1, some true)
+  else afterOut (outLoop c picks (c.syncQ.length + c.asyncQ.length + 1)).1
 
 def partialOk (c : Chan) (avail : Nat) : Bool :=
   avail = 0 || (match c.sBuf with | m :: _ => avail < m.bytes | [] => false) ||
